@@ -19,7 +19,28 @@ import (
 )
 
 func genC05(t *rapid.T) histPlan {
+	if rapid.IntRange(0, 19).Draw(t, "tinyFlood") == 0 {
+		return genC05TinyFlood(t)
+	}
 	p, _ := genHist(t, histProfile{caps: []uint64{0, 1, 1, 1, 2, 3}, maxOps: 90, reopenPct: 4})
+	return p
+}
+
+// genC05TinyFlood: more than a thousand items of a few bytes at the far end of the store, then items of 3-4% of the
+// capacity until it is crossed: the pass that follows has to drop more than a thousand keys to free its 5%.
+func genC05TinyFlood(t *rapid.T) histPlan {
+	p := histPlan{Node: make([]byte, 32), CapMB: 1}
+	n := rapid.IntRange(1050, 1600).Draw(t, "ntiny")
+	for i := 0; i < n; i++ {
+		d := make([]byte, 32)
+		d[0], d[1], d[2] = 0xff, byte(i>>8), byte(i)
+		p.Ops = append(p.Ops, histOp{Op: "put", ID: idRef{Kind: "dist", Dist: d}, Len: rapid.IntRange(0, 6).Draw(t, "tlen"), Seed: uint32(i)})
+	}
+	for i, m := 0, rapid.IntRange(28, 34).Draw(t, "nbig"); i < m; i++ {
+		d := make([]byte, 32)
+		d[0], d[1] = 0x01, byte(i)
+		p.Ops = append(p.Ops, histOp{Op: "put", ID: idRef{Kind: "dist", Dist: d}, Len: rapid.IntRange(30_000, 40_000).Draw(t, "blen"), Seed: uint32(10_000 + i)})
+	}
 	return p
 }
 
@@ -165,6 +186,9 @@ func runC05(p histPlan, c *stats.Case) error {
 			}
 			if _, ok := after.Items[key]; !ok {
 				c.Class("self-pruned")
+			}
+			if would > capB && len(before.Items) > 1100 {
+				c.NT("pass-over-more-than-a-thousand-tiny-far-items")
 			}
 			if allSmall && capB > 0 {
 				c.Class("all-items<=5%")
